@@ -292,7 +292,17 @@ with frag_stmts (fl : list (N * kind)) (k : nat) (sc : list N) (ss : list stmt) 
           | _ =>
               match frag_stmt fl k sc s with
               | Some sc' => frag_stmts fl k sc' ss'
-              | None => None
+              | None =>
+                  match s with
+                  | SDefinition _ x _ _ v _ =>
+                      (* x :: <a function value>: x is a function name from here on; while its value is computed the
+                         name exists and cannot be used (the entry (x, KP): nothing can be done with such a name) *)
+                      match frag_fexpr ((x, KP) :: fl) k sc v with
+                      | Some K => if fresh_id fl sc x then frag_stmts ((x, K) :: fl) k sc ss' else None
+                      | None => None
+                      end
+                  | _ => None
+                  end
               end
           end
       end
@@ -353,7 +363,11 @@ Fixpoint frag_items (pv sv bound : N) (k : nat) (scg : list N) (fl : list (N * k
       end
   end.
 
-(* STAGE 4g (4f + FUNCTIONS THAT RETURN FUNCTIONS: the declared result type of a function or lambda may be a function
+(* STAGE 4h (4g + FUNCTION-VALUED CONSTANTS  x :: <function value>  in any statement list: the value is the name of a
+   function, a lambda (that is a local function), or a call that returns a function -- `c :: mkc(0)` --; from there to
+   the end of the list x is a function name: it can be called and passed on like any other.  While its value is
+   computed the name exists and cannot be used (frag_stmts, the entry (x, KP));
+   4g = 4f + FUNCTIONS THAT RETURN FUNCTIONS: the declared result type of a function or lambda may be a function
    type; then the last statement of its body is a function-valued expression of that kind -- a lambda (a NEW CLOSURE over
    the parameters and locals of this call: every call returns its own closure with its own captured variables, which
    it keeps after the call has ended and may assign), the name of a function, or a call that returns a function -- and
@@ -398,12 +412,12 @@ Fixpoint frag_items (pv sv bound : N) (k : nat) (scg : list N) (fl : list (N * k
    body is a function body of the fragment over what is in scope there, or a call that returns a function of that kind), and if/elif/else expressions and statements whose branches are statement lists.
    KINDS.  Every value is plain (int, bool, string, nil) or a function; the kind of a parameter and of the result of a
    function is read off its declared type (`fn T1, ..., Tn -> T` is a function kind, everything else plain).  Function
-   values exist only as the values of function names (definitions `f :: fn ...` and parameters of function kind), of
-   lambda expressions and of calls of functions whose result kind is a function kind, in argument position or as the
-   result of a function; a function name can be called and passed to a parameter of the same function kind, nothing
+   values exist only as the values of function names (definitions `f :: fn ...`, `x :: <function value>` and parameters
+   of function kind), of lambda expressions and of calls of functions whose result kind is a function kind, in argument
+   position, as the value of a constant or as the result of a function; a function name can be called and passed to a parameter of the same function kind, nothing
    else: so print, the operators, the conditions and the assignments only ever see plain values.
-   NOT in the fragment: `ret` without a value (it returns Sylt's nil, the table __NIL), function values stored in
-   variables (`c :: mk(1)`; a parameter of function kind is the way to name one) or called where they are computed
+   NOT in the fragment: `ret` without a value (it returns Sylt's nil, the table __NIL), ASSIGNMENTS of function
+   values (`c = mk(2)`), function-valued definitions at the top level (`g :: mk(1)` outside a function), function values called where they are computed
    (`mk(1)(2)`), `ret` of a function value, blobs, tuples, lists, enums/case, floats, division. *)
 Definition frag (k : nat) (r : resolved) : bool :=
   let bound := N.of_nat (length (r_vars r)) + 1 in
